@@ -10,36 +10,36 @@ macro_rules! sw {
     }};
 }
 macro_rules! sw_all {
-    ($tb:ident, $tc:ident, $shape:ident, $unw_bin:expr, $unw_cmp:expr) => {
+    ($tb:ident, $tu:ident, $tc:ident, $shape:ident, $unw_bin:expr, $unw_cmp:expr) => {
         sw!($tb, $shape, PBin, bin, $unw_bin);
         sw!(t, $shape, PLe, le, $unw_bin);
-        sw!($tb, $shape, PUnchecked, unchecked, $unw_bin);
+        sw!($tu, $shape, PUnchecked, unchecked, $unw_bin);
         sw!($tc, $shape, PCompact, compact, $unw_cmp);
     };
 }
-sw_all!(t, t, V_BOOL, 4, 5);
-sw_all!(t, t, V_I8, 4, 5);
-sw_all!(t, q, V_I16, 4, 5);
-sw_all!(q, q, V_I32, 5, 7);
-sw_all!(t, q, V_I64, 9, 12);
-sw_all!(q, q, V_DOUBLE, 9, 9);
-sw_all!(q, t, V_UUID, 17, 17);
-sw_all!(q, q, V_BINARY2, 5, 7);
-sw_all!(t, t, V_BINARY0, 5, 7);
-sw_all!(q, t, V_LIST_I32_2, 5, 7);
-sw_all!(t, t, V_LIST_BOOL_2, 5, 7);
-sw_all!(t, t, V_LIST_EMPTY, 5, 7);
-sw_all!(q, t, V_LIST_BIN_1, 5, 7);
-sw_all!(t, t, V_SET_I8_2, 5, 7);
-sw_all!(q, t, V_MAP_I8_BIN, 5, 7);
-sw_all!(t, t, V_MAP_EMPTY, 5, 7);
-sw_all!(q, t, V_SET_EMPTY_BIN, 5, 7);
-sw_all!(t, t, V_SET_EMPTY_STRUCT, 5, 7);
-sw_all!(t, t, V_MAP_I16_I64, 9, 12);
-sw_all!(q, q, V_STRUCT_FLAT, 5, 7);
-sw_all!(q, t, V_STRUCT_NEST, 5, 7);
-sw_all!(t, t, V_STRUCT_EMPTY, 5, 7);
-sw_all!(t, t, V_LIST_STRUCT, 5, 7);
+sw_all!(t, t, t, V_BOOL, 4, 5);
+sw_all!(t, t, t, V_I8, 4, 5);
+sw_all!(t, t, q, V_I16, 4, 5);
+sw_all!(q, q, q, V_I32, 5, 7);
+sw_all!(t, t, q, V_I64, 9, 12);
+sw_all!(q, q, q, V_DOUBLE, 9, 9);
+sw_all!(q, q, t, V_UUID, 17, 17);
+sw_all!(q, q, t, V_BINARY2, 5, 7);
+sw_all!(t, t, t, V_BINARY0, 5, 7);
+sw_all!(q, q, t, V_LIST_I32_2, 5, 7);
+sw_all!(t, t, t, V_LIST_BOOL_2, 5, 7);
+sw_all!(t, t, t, V_LIST_EMPTY, 5, 7);
+sw_all!(q, q, t, V_LIST_BIN_1, 5, 7);
+sw_all!(t, t, t, V_SET_I8_2, 5, 7);
+sw_all!(q, t, t, V_MAP_I8_BIN, 5, 7);
+sw_all!(t, t, t, V_MAP_EMPTY, 5, 7);
+sw_all!(q, q, t, V_SET_EMPTY_BIN, 5, 7);
+sw_all!(t, t, t, V_SET_EMPTY_STRUCT, 5, 7);
+sw_all!(t, t, t, V_MAP_I16_I64, 9, 12);
+sw_all!(q, q, t, V_STRUCT_FLAT, 5, 7);
+sw_all!(q, t, t, V_STRUCT_NEST, 5, 7);
+sw_all!(t, t, t, V_STRUCT_EMPTY, 5, 7);
+sw_all!(t, t, t, V_LIST_STRUCT, 5, 7);
 
 // (c) depth limit, recursive default skipper (binary, LE, compact)
 macro_rules! sd {
@@ -52,7 +52,7 @@ macro_rules! sd {
 // unrolling the field loop up to the bound; the solver then proves the unwinding assertion.
 sd!(q, PBin, bin, 0, 1, 3);
 sd!(q, PBin, bin, 0, 2, 3);
-sd!(q, PBin, bin, 1, 2, 3);
+sd!(t, PBin, bin, 1, 2, 3);
 sd!(q, PBin, bin, 1, 3, 3);
 sd!(t, PBin, bin, 2, 3, 3);
 sd!(t, PBin, bin, 2, 4, 3);
@@ -79,10 +79,12 @@ macro_rules! sa_types {
         sa!($tier, $p, $pn, 8, i32, $n, $unw);
         sa!($tier, $p, $pn, 10, i64, $n, $unw);
         sa!($tier, $p, $pn, 11, binary, $n, $unw);
-        sa!($tier, $p, $pn, 12, struct, $n, $unw);
-        sa!($tier, $p, $pn, 13, map, $n, $unw);
-        sa!($tier, $p, $pn, 15, list, $n, $unw);
         sa!($tier, $p, $pn, 16, uuid, $n, $unw);
+        // containers: element/field type bytes are symbolic here (ThriftException drop glue
+        // in map_err, DESIGN.md §2.3): thorough tier, registered only if calibration is conclusive
+        sa!(t, $p, $pn, 12, struct, $n, $unw);
+        sa!(t, $p, $pn, 13, map, $n, $unw);
+        sa!(t, $p, $pn, 15, list, $n, $unw);
     };
 }
 sa_types!(q, PBin, bin, 6, 2);
